@@ -171,6 +171,14 @@ func main() {
 		doReplay(*replayIn)
 		return
 	}
+	if *hunt > 0 {
+		doHunt(*seed, *hunt)
+		return
+	}
+	if *enumM > 0 {
+		doEnum(*enumM, *enumN1, *enumN2, *enumShard, *enumShards)
+		return
+	}
 	var only *caseJSON
 	if *replay != "" {
 		b, err := os.ReadFile(*replay)
@@ -299,10 +307,11 @@ func main() {
 		var mon *cf.Monitor
 		switch {
 		case run.Hang:
-			// the known family keeps redirecting moves through getTheActualPartitionToBeMoved; any other way of not
-			// returning gets its own signature
+			// c08_sticky_terminates_partial: a run that never reaches the reverse-pair redirection of
+			// getTheActualPartitionToBeMoved (sticky.pick) returns; the known finding is the class with redirections,
+			// a non-returning run outside it gets its own signature
 			sig := "sticky:does-not-terminate"
-			if run.NPicks < 50 {
+			if run.NPicks == 0 {
 				sig = "sticky:does-not-terminate:without-reverse-pair-redirection"
 			}
 			mon = &cf.Monitor{Signature: sig, What: fmt.Sprintf("stickyBalanceStrategy.Plan did not return within %v (%d reverse-pair redirections so far; performReassignments keeps repeating a pass that changes nothing)", bg.HangTimeout, run.NPicks)}
@@ -455,6 +464,139 @@ func boundaries(plan sarama.BalanceStrategyPlan, ids []string, n int) ([]int64, 
 var searchM = flag.Int("sm", 4, "search: max members")
 var searchT = flag.Int("st", 3, "search: max topics")
 var searchP = flag.Int("sp", 4, "search: max partitions per topic")
+
+var hunt = flag.Int("hunt", 0, "hunt mode: run this many forged small states looking for the revert branch of balance() (needs a tree with a sticky.revert report)")
+
+// doHunt looks for inputs that take the revert branch of balance(); prints them (with the number of fixed members).
+func doHunt(seed int64, n int) {
+	r := rand.New(rand.NewSource(seed))
+	bg.HangTimeout = 2 * time.Second
+	rev, hangs := 0, 0
+	for i := 0; i < n; i++ {
+		in := bg.Adversarial(r, *searchM, *searchT, *searchP)
+		run := bg.RunSticky(in)
+		if run.Hang {
+			hangs++
+			if hangs > 3 {
+				break
+			}
+			continue
+		}
+		if run.Other["sticky.revert"] > 0 {
+			rev++
+			k, what := bg.Validity(&run.In, run.Plan)
+			b, _ := json.Marshal(run)
+			fmt.Println("REVERT", k, what, string(b))
+			if rev >= 5 {
+				break
+			}
+		}
+	}
+	fmt.Println("hunt done", n, "reverts", rev, "hangs", hangs)
+}
+
+var enumM = flag.Int("enum", 0, "enumeration mode: number of members (2 topics s,t; all subscriptions x all forged owners)")
+var enumN1 = flag.Int("n1", 3, "enum: partitions of topic s")
+var enumN2 = flag.Int("n2", 3, "enum: partitions of topic t")
+var enumShard = flag.Int("shard", 0, "enum: shard index")
+var enumShards = flag.Int("shards", 1, "enum: number of shards")
+
+// doEnum runs the sticky strategy on every (subscription pattern, forged single-generation ownership) of a tiny universe in
+// which nobody starts empty, looking for the revert branch of balance() (needs a tree with a sticky.revert report).
+func doEnum(M, n1, n2, shard, shards int) {
+	bg.HangTimeout = 2 * time.Second
+	n := n1 + n2
+	topicOf := func(i int) (string, int32) {
+		if i < n1 {
+			return "s", int32(i)
+		}
+		return "t", int32(i - n1)
+	}
+	pow := func(b, e int) int {
+		r := 1
+		for i := 0; i < e; i++ {
+			r *= b
+		}
+		return r
+	}
+	nsub, nown := pow(3, M), pow(M, n)
+	plans, rev, hangs, moved := 0, 0, 0, 0
+	for sc := 0; sc < nsub; sc++ {
+		subs := make([][]string, M)
+		c := sc
+		for i := 0; i < M; i++ {
+			subs[i] = [][]string{{"s"}, {"t"}, {"s", "t"}}[c%3]
+			c /= 3
+		}
+		for oc := shard; oc < nown; oc += shards {
+			own := make([]int, n)
+			c := oc
+			cnt := make([]int, M)
+			ok := true
+			for i := 0; i < n; i++ {
+				own[i] = c % M
+				c /= M
+				t, _ := topicOf(i)
+				has := false
+				for _, x := range subs[own[i]] {
+					if x == t {
+						has = true
+					}
+				}
+				if has {
+					cnt[own[i]]++
+				}
+			}
+			for i := 0; i < M; i++ {
+				if cnt[i] == 0 {
+					ok = false
+				}
+			}
+			if !ok {
+				continue
+			}
+			in := bg.Input{Topics: []bg.Topic{{Name: "s", Parts: bg.Seq(n1)}, {Name: "t", Parts: bg.Seq(n2)}}}
+			for i := 0; i < M; i++ {
+				claim := map[string][]int32{}
+				for k := 0; k < n; k++ {
+					if own[k] == i {
+						t, p := topicOf(k)
+						claim[t] = append(claim[t], p)
+					}
+				}
+				b, _ := sarama.BalanceStrategySticky.AssignmentData("", claim, 5)
+				in.Members = append(in.Members, bg.Member{ID: fmt.Sprintf("m%d", i), Topics: subs[i], Data: b})
+			}
+			run := bg.RunSticky(in)
+			plans++
+			if run.Hang {
+				hangs++
+				if hangs <= 2 {
+					b, _ := json.Marshal(run.In)
+					fmt.Println("HANG", string(b))
+				}
+				if hangs > 20 {
+					fmt.Println("too many hangs")
+					return
+				}
+				continue
+			}
+			if run.NPicks > 0 {
+				moved++
+			}
+			if run.Other["sticky.revert"] > 0 {
+				rev++
+				k, what := bg.Validity(&run.In, run.Plan)
+				b, _ := json.Marshal(run)
+				fmt.Println("REVERT", k, what, string(b))
+				if rev >= 3 {
+					return
+				}
+			}
+		}
+	}
+	fmt.Println("enum done members", M, "partitions", n1, n2, "plans", plans, "with-redirect", moved, "reverts", rev, "hangs", hangs)
+}
 
 var replayIn = flag.String("replayin", "", "run the sticky strategy on the input of this JSON file ({\"in\":{...}} or {...}) and print what happens")
 var replayTimes = flag.Int("times", 1, "replay: repetitions")
